@@ -7,7 +7,7 @@ from checks import common
 
 def run(tier, opts):
     ck = vf.Check("C13", tier)
-    ck.rule = ("MC_Seed: every ordered pair of public inputs from a small space (main page of 0..2 cells, 0..1 continuous-page headers, dynamic "
+    ck.rule = ("MC_Seed: every ordered pair of public inputs from a small space (main page of 0..2 cells (thorough: every 2-cell page; quick: two transposed 2-cell pages), 0..1 continuous-page headers, dynamic "
                "parameter vector, segment, padding, range-check fields over a 2-atom alphabet; both Stone versions): seed terms are equal iff the "
                "inputs are equal (and the friendly-layer count under Stone 6). Every small input is replayed on the real get_hash (2 instantiations, "
                "value = term, equality partition). On the public inputs of the shipped proofs (one per layout, 7 layouts): every scalar field, every "
@@ -18,7 +18,8 @@ def run(tier, opts):
     tmp = vf.tmpdir("C13")
     cases = []
     for stone6 in (False, True):
-        cfg = common.gen_cfg("MC_Seed.cfg", {"Stone6 = FALSE": f"Stone6 = {'TRUE' if stone6 else 'FALSE'}"}, "s6" if stone6 else "s5")
+        cfg = common.gen_cfg("MC_Seed.cfg", {"Stone6 = FALSE": f"Stone6 = {'TRUE' if stone6 else 'FALSE'}", "Small = TRUE": f"Small = {'TRUE' if tier == 'quick' else 'FALSE'}"},
+                             ("s6" if stone6 else "s5") + tier)
         res = vf.tlc("MC_Seed", cfg=cfg, workers=12, timeout=3600, heap="16g")
         ck.add_tlc(res, f"MC_Seed(stone6={stone6})")
         if not ck.require_tlc_ok(res, "MC_Seed"):
